@@ -218,6 +218,22 @@ def p_x_index(c):
     X = pd.DataFrame({"a": np.arange(len(y), dtype=float)}, index=y.index)
     Xbad = pd.DataFrame({"a": np.arange(len(y), dtype=float)}, index=gen.int_index(int(y.index[0]) + 1, len(y), c["index_kind"]))
     out = []
+    if c.get("x_variant") == "tts":
+        # the train/test split by a horizon takes the exogenous data along: its rows are
+        # those of the target's time points, so another index is refused, not re-aligned
+        n = len(y)
+        ik = c["index_kind"]
+        y0 = int(y.index[0])
+        steps = c["fh"]
+        for fh_arg in (list(steps), ForecastingHorizon([int(y.index[-1]) - (steps[-1] - h) for h in steps], is_relative=False)):
+            what = "relative" if isinstance(fh_arg, list) else "absolute"
+            out += expect_accepted(sut(temporal_train_test_split, y.copy(), X.copy(), fh=fh_arg), "temporal_train_test_split_with_X(%s fh)" % what)
+            for tag, idx in (("shifted", gen.int_index(y0 + 1, n, ik)), ("longer", gen.int_index(y0, n + 2, ik)),
+                             ("leading", gen.int_index(y0 - 2, n + 2, ik)), ("shorter", gen.int_index(y0, n - 1, ik)),
+                             ("rows_reversed", y.index[::-1])):
+                Xb = pd.DataFrame({"a": np.arange(len(idx), dtype=float)}, index=idx)
+                out += expect_rejected(sut(temporal_train_test_split, y.copy(), Xb, fh=fh_arg), "X_index_differs(%s):temporal_train_test_split(%s fh)" % (tag, what))
+        return out
     f = FORECASTERS[name]()
     r = sut(FORECASTERS[name]().fit, y.copy(), X.copy(), c["fh"])
     if isinstance(r, Raised) and r.is_a(NotImplementedError):
@@ -496,6 +512,7 @@ def p_composite(c):
             "duplicate_names": [("a", a), ("a", b)],
             "dunder_name": [("a__x", a), ("b", b)],
             "name_is_ctor_arg": [("forecasters", a), ("b", b)],
+            "name_is_optional_ctor_arg": [({"ensemble": "aggfunc", "stack": "n_jobs", "multiplex": "selected_forecaster"}[kind], a), ("b", b)],
             "empty_list": [],
             "non_forecaster_member": [("a", a), ("b", LogTransformer())],
         }
@@ -534,7 +551,7 @@ def cases(draw, pair):
         c["fault"] = draw(st.sampled_from(["unsorted", "unsorted_middle", "reversed_range", "empty", "dataframe", "ndarray"]))
     elif pair == "x_index":
         c["forecaster"] = draw(st.sampled_from(["naive", "recursive", "direct", "multioutput", "ensemble", "multiplex", "expsmooth"]))
-        c["x_variant"] = draw(st.sampled_from(["fit", "fit", "fit_shorter", "fit_longer", "fit_leading", "update", "evaluate"]))
+        c["x_variant"] = draw(st.sampled_from(["fit", "fit", "fit_shorter", "fit_longer", "fit_leading", "update", "evaluate", "tts"]))
     elif pair == "fh_fault":
         c["where"] = draw(st.sampled_from(["constructor", "fit", "predict", "splitter", "tts"]))
         c["forecaster"] = draw(st.sampled_from(sorted(FORECASTERS)))
@@ -570,7 +587,7 @@ def cases(draw, pair):
         c["bad_name"] = draw(st.sampled_from(["", "Last", "mean ", "nope", "refit2", "avg", "MEAN", 0, 1, 2, 3]))
     else:
         c["composite"] = draw(st.sampled_from(["ensemble", "stack", "multiplex", "pipeline"]))
-        c["fault"] = draw(st.sampled_from(["duplicate_names", "dunder_name", "name_is_ctor_arg", "empty_list",
+        c["fault"] = draw(st.sampled_from(["duplicate_names", "dunder_name", "name_is_ctor_arg", "name_is_optional_ctor_arg", "empty_list",
                                            "non_forecaster_member", "non_transformer_step", "last_step_not_forecaster"]))
     return c
 
@@ -595,6 +612,7 @@ def enum_table(tier):
     for f, v in itertools.product(["naive", "recursive", "direct", "multioutput", "ensemble", "multiplex", "expsmooth"],
                                   ["fit", "fit_shorter", "fit_longer", "fit_leading", "update", "evaluate"]):
         table.append({"pair": "x_index", "forecaster": f, "x_variant": v})
+    table.append({"pair": "x_index", "forecaster": "naive", "x_variant": "tts"})
     for w, fl, dk in itertools.product(["constructor", "fit", "predict", "splitter", "tts"],
                                        ["duplicate", "empty", "fractional", "string", "float_scalar", "tuple", "set"],
                                        ["list", "array", "index_sorted", "index_unsorted"]):
@@ -623,7 +641,7 @@ def enum_table(tier):
                                   ["", "Last", "mean ", "nope", "refit2", "avg", "MEAN", 0, 1, 2, 3]):
         table.append({"pair": "unknown_name", "where": w, "bad_name": b})
     for k, fl in itertools.product(["ensemble", "stack", "multiplex", "pipeline"],
-                                   ["duplicate_names", "dunder_name", "name_is_ctor_arg", "empty_list", "non_forecaster_member",
+                                   ["duplicate_names", "dunder_name", "name_is_ctor_arg", "name_is_optional_ctor_arg", "empty_list", "non_forecaster_member",
                                     "non_transformer_step", "last_step_not_forecaster"]):
         table.append({"pair": "composite", "composite": k, "fault": fl})
     for ctx_ in contexts:
